@@ -123,3 +123,69 @@ theorem keyBytes_eq (c : Cfg) (hr : c.r = 2 ∨ c.r = 3 ∨ c.r = 4) : keyBytes 
   rcases hr with h | h | h <;> simp [h]
 
 end PdfVerif.Crypt
+
+namespace PdfVerif.Crypt
+open PdfVerif PdfVerif.Gen.Crypt PdfVerif.CryptWriter
+
+/-! ### object trees -/
+
+theorem attrsType_encryptKVs (e : Bytes → Bytes) (skip : List (Bytes × Obj) → Bool)
+    (kvs : List (Bytes × Obj)) : attrsType (encryptKVs e skip kvs) = attrsType kvs := by
+  induction kvs with
+  | nil => rfl
+  | cons kv rest ih =>
+    obtain ⟨k, v⟩ := kv
+    cases v with
+    | str b => simp [encryptKVs, encryptAll, attrsType, ih]
+    | atom a => simp [encryptKVs, encryptAll, attrsType, ih]
+    | arr xs => simp [encryptKVs, encryptAll, attrsType, ih]
+    | dict d => simp [encryptKVs, encryptAll, attrsType, ih]
+    | stream a r =>
+      simp only [encryptKVs, encryptAll, attrsType, ih]
+      split
+      · split
+        · rename_i heq
+          split at heq <;> cases heq
+        · rfl
+      · rfl
+
+section roundtrip
+set_option linter.unusedSectionVars false
+variable (f : Bytes → Bytes) (g : Bool → Bytes → Bytes) (e : Bytes → Bytes)
+  (skip : List (Bytes × Obj) → Bool)
+  (hfe : ∀ b, f (e b) = b) (he : ∀ b, e b = [] → b = [])
+  (hg : ∀ attrs raw, g (attrsType attrs = some atomMetadata) (if skip attrs then raw else e raw) = raw)
+include hfe he hg
+
+mutual
+theorem decipher_encrypt_obj (o : Obj) : decipherAll f g (encryptAll e skip o) = o := by
+  cases o with
+  | str b =>
+    simp only [encryptAll, decipherAll]
+    by_cases hb : (e b).isEmpty
+    · have : e b = [] := by simpa using hb
+      rw [if_pos hb, this, he b this]
+    · rw [if_neg hb, hfe]
+  | atom a => rfl
+  | arr xs => simp only [encryptAll, decipherAll, decipher_encrypt_list xs]
+  | dict kvs => simp only [encryptAll, decipherAll, decipher_encrypt_kvs kvs]
+  | stream attrs raw =>
+    simp only [encryptAll]
+    by_cases hx : attrsType attrs = some atomXRef
+    · simp only [hx, if_true, decipherAll]
+    · simp only [hx, if_false, decipherAll, attrsType_encryptKVs, decipher_encrypt_kvs attrs, hg]
+theorem decipher_encrypt_list (xs : List Obj) : decipherList f g (encryptList e skip xs) = xs := by
+  cases xs with
+  | nil => rfl
+  | cons x xs => simp only [encryptList, decipherList, decipher_encrypt_obj x, decipher_encrypt_list xs]
+theorem decipher_encrypt_kvs (kvs : List (Bytes × Obj)) :
+    decipherKVs f g (encryptKVs e skip kvs) = kvs := by
+  cases kvs with
+  | nil => rfl
+  | cons kv rest =>
+    obtain ⟨k, v⟩ := kv
+    simp only [encryptKVs, decipherKVs, decipher_encrypt_obj v, decipher_encrypt_kvs rest]
+end
+end roundtrip
+
+end PdfVerif.Crypt
